@@ -120,8 +120,13 @@ def kill(proc):
 class SimFileIO(io.FileIO):
     """Raw file whose write() is a simulator event."""
 
-    def __init__(self, path, mode, proc, sandbox):
-        super().__init__(path, mode)
+    def __init__(self, path, mode, proc, sandbox, fd=None, closefd=True):
+        if fd is None:
+            super().__init__(path, mode)
+        else:
+            # a descriptor obtained through the os.open seam (mkstemp,
+            # lock files): same instrumented writes, known path
+            super().__init__(fd, mode, closefd=closefd)
         self._proc = proc
         self._sb = sandbox
         self._path = path
@@ -215,18 +220,30 @@ class Sandbox:
     def _open(self, file, mode='r', buffering=-1, encoding=None,
               errors=None, newline=None, closefd=True, opener=None):
         proc = current()
+        fd = None
+        if isinstance(file, int) and not isinstance(file, bool) \
+                and proc is not None and file in getattr(self, '_fds', {}):
+            fd = file
+            file = self._fds[fd][1]
         if (proc is None or isinstance(file, int) or not self.inside(file)
                 or not any(c in mode for c in 'wax+')):
-            return _real_open(file, mode, buffering, encoding, errors,
-                              newline, closefd, opener)
+            return _real_open(file if fd is None else fd, mode, buffering,
+                              encoding, errors, newline, closefd, opener)
         if proc.dead:
             raise SimKill()
         path = os.path.abspath(os.fspath(file))
         binary = 'b' in mode
         rawmode = mode.replace('b', '').replace('t', '')
-        existed = os.path.exists(path)
-        raw = SimFileIO(path, rawmode, proc, self)
-        kind = 'open-trunc' if ('w' in mode and existed) else 'open'
+        existed = fd is not None or _real_exists(path)
+        if fd is not None:
+            raw = SimFileIO(path, rawmode, proc, self, fd=fd,
+                            closefd=closefd)
+            if closefd:
+                self._fds.pop(fd, None)
+        else:
+            raw = SimFileIO(path, rawmode, proc, self)
+        kind = 'open-fd' if fd is not None else \
+            'open-trunc' if ('w' in mode and existed) else 'open'
         p, f = fs_event(kind, path, mode)
         if f is not None and f['kind'] == 'kill':
             kill(proc)
